@@ -1,13 +1,12 @@
-SPECIFICATION TraceSpec
+SPECIFICATION SimSpec
 CONSTANTS
-  InitAccts <- MC_AcctsA
+  InitAccts <- MC_AcctsU
   MinLiq = "1"
-  Amts = {}
-  MaxT = 0
-  TStep = 0
-  MaxLen = 0
+  Amts = {"1","2","3","5"}
+  MaxT = 12
+  TStep = 3
+  MaxLen = 7
   SplitMaxP = 0
   SplitMaxAmt = 0
   Defects = {"aggregate_lock_pairs_grants"}
-INVARIANT Report
 CHECK_DEADLOCK FALSE
